@@ -284,6 +284,9 @@ pub fn run(ctx: &mut Ctx) {
             "Prepare the @@pizza dough{1%kg} the day before.\n\nStretch the @&pizza dough{} on the #tray.\n",
             "@-a{1} @?b{2} @@c{3} @-?@d{} @&a @&b @&c @&d{1} #-p #?q #&p #&q{2}\n",
             ">> [mode]: components\n@x{1} #y\n>> [mode]: steps\n@x @+z{2} #y #+w\n",
+            // empty and blank notes, aliases next to them: `Some("")` is not `None`
+            "Season with @salt{1%tsp}() and @pepper{}( ) in the #pan{}() and #pot|p{}(\u{a0}).\n",
+            "@a|b{}() @&a{} #c{1}( ) ~t{1%min}\n",
         ] {
             check_case(ctx, &mut ps, &Case::new("modifiers", input, all, "bundled"));
             ctx.count("inputs_modifier_combinations");
